@@ -188,6 +188,123 @@ fn check(c: &Case, info: &mut Info) -> Result<(), String> {
     Ok(())
 }
 
+
+/// One entry of a crate-written archive gets a byte of its data damaged. Both readers then meet the same
+/// damaged bytes: whatever the seekable reader still delivers (every other entry, and the damaged one
+/// if its decoder does not notice) the stream must deliver too, in particular every entry BEHIND the
+/// damaged one, however the consumer leaves the entry whose read failed.
+#[derive(Clone, Debug, Serialize, Deserialize, Hash)]
+pub struct Damaged {
+    method: u8,
+    len: u32,
+    compressible: bool,
+    /// position of the damaged byte inside the entry's data, as a fraction of 65536
+    at: u16,
+    xor: u8,
+    /// what the consumer does with the damaged entry: 0 reads until EOF/error, 1 reads half, 2 nothing
+    consume: u8,
+    schedule: Vec<usize>,
+    buf: usize,
+}
+
+fn check_damaged(c: &Damaged, info: &mut Info) -> Result<(), String> {
+    let m = [gen::Method::Stored, gen::Method::Deflated, gen::Method::Bzip2, gen::Method::Zstd][c.method as usize % 4];
+    let big = if c.compressible { Content::Text { seed: c.len as u64, len: c.len } } else { Content::Rand { seed: c.len as u64, len: c.len } };
+    let ops = vec![
+        gen::Op::File { name: "first.txt".into(), opts: gen::Opts::plain(gen::Method::Deflated), chunks: vec![Content::Text { seed: 1, len: 700 }] },
+        gen::Op::File { name: "damaged.bin".into(), opts: gen::Opts::plain(m), chunks: vec![big] },
+        gen::Op::File { name: "behind/stored".into(), opts: gen::Opts::plain(gen::Method::Stored), chunks: vec![Content::Rand { seed: 3, len: 900 }] },
+        gen::Op::File { name: "behind/last.zst".into(), opts: gen::Opts::plain(gen::Method::Zstd), chunks: vec![Content::Text { seed: 4, len: 5000 }] },
+    ];
+    let mut bytes = gen::run_program(&Program { ops }, false).map_err(|e| format!("harness: program refused: {e}"))?;
+    let (ds, cs) = {
+        let mut za = zip::ZipArchive::new(Cursor::new(&bytes[..])).map_err(|e| format!("harness: {e}"))?;
+        let f = za.by_index(1).map_err(|e| format!("harness: {e}"))?;
+        (f.data_start(), f.compressed_size())
+    };
+    if cs == 0 {
+        return Ok(());
+    }
+    let pos = ds + ((c.at as u64 * cs) >> 16);
+    bytes[pos as usize] ^= c.xor.max(1);
+    info.label(["damaged-stored", "damaged-deflate", "damaged-bzip2", "damaged-zstd"][c.method as usize % 4]);
+    info.label_if(cs > 32 * 1024, "compressed>32KiB");
+    info.label_if(cs > 128 * 1024, "compressed>128KiB");
+    // seekable reader over the damaged archive
+    let mut za = zip::ZipArchive::new(Cursor::new(&bytes[..])).map_err(|e| format!("harness: seekable reader refuses the archive: {e}"))?;
+    let n = za.len();
+    let mut reference: Vec<(Meta, Result<Vec<u8>, ()>)> = Vec::new();
+    for i in 0..n {
+        let mut f = za.by_index(i).map_err(|e| format!("harness: by_index({i}): {e}"))?;
+        let lm = f.last_modified();
+        let m = Meta { name: f.name().to_string(), size: f.size(), csize: f.compressed_size(), method: super::common::method_id(f.compression()), dos: (lm.datepart(), lm.timepart()), crc: f.crc32() };
+        let mut content = Vec::new();
+        let r = f.read_to_end(&mut content).map(|_| content).map_err(|_| ());
+        reference.push((m, r));
+    }
+    if reference.iter().enumerate().any(|(i, r)| i != 1 && r.1.is_err()) {
+        return Err("harness: an undamaged entry does not read back through the seekable reader".into());
+    }
+    info.nontrivial = true;
+    info.label(if reference[1].1.is_err() { "seekable:Err" } else { "seekable:Ok(damage unnoticed or harmless)" });
+    let mut src = NoSeek(ChunkReader::new(Cursor::new(&bytes[..]), c.schedule.clone(), vec![]));
+    for i in 0..=n {
+        match zip::read::read_zipfile_from_stream(&mut src) {
+            Ok(Some(mut f)) => {
+                if i == n {
+                    return Err(format!("stream yields a {}th entry although the archive has {n}", n + 1));
+                }
+                let lm = f.last_modified();
+                let m = Meta { name: f.name().to_string(), size: f.size(), csize: f.compressed_size(), method: super::common::method_id(f.compression()), dos: (lm.datepart(), lm.timepart()), crc: f.crc32() };
+                if m != reference[i].0 {
+                    return Err(format!("entry {i}: streaming metadata {m:?} != seekable {:?}", reference[i].0));
+                }
+                let limit = if i == 1 { [u64::MAX, m.size / 2, 0][c.consume as usize % 3] } else { u64::MAX };
+                let mut got = Vec::new();
+                let mut buf = vec![0u8; c.buf.max(1)];
+                let mut failed = false;
+                let mut eof = false;
+                while (got.len() as u64) < limit {
+                    let want = buf.len().min((limit - got.len() as u64).min(1 << 20) as usize);
+                    match f.read(&mut buf[..want]) {
+                        Ok(0) => {
+                            eof = true;
+                            break;
+                        }
+                        Ok(k) => got.extend_from_slice(&buf[..k]),
+                        Err(_) => {
+                            failed = true;
+                            break;
+                        }
+                    }
+                }
+                match &reference[i].1 {
+                    Ok(content) => {
+                        if failed {
+                            return Err(format!("entry {i} ({:?}): the seekable reader delivers it, the stream reports a read error after {} bytes", m.name, got.len()));
+                        }
+                        if got[..] != content[..got.len().min(content.len())] || (eof && got.len() != content.len()) {
+                            return Err(format!("entry {i} ({:?}): stream content differs from the seekable reader's", m.name));
+                        }
+                    }
+                    Err(()) => {
+                        if eof && !failed {
+                            return Err(format!("entry {i} ({:?}): the seekable reader reports a read error, the stream delivered {} bytes and a clean end-of-file", m.name, got.len()));
+                        }
+                    }
+                }
+            }
+            Ok(None) => {
+                if i != n {
+                    return Err(format!("stream signals the end of entries after {i} of {n} entries (entry 1 is damaged at data offset {}, the consumer {} it; the seekable reader still lists and delivers the entries behind it)", pos - ds, ["read it until the error", "read half of it", "skipped it"][c.consume as usize % 3]));
+                }
+            }
+            Err(e) => return Err(format!("stream fails at entry {i} of {n}: {e} (entry 1 is damaged at data offset {} of {cs}, the consumer {} it; the seekable reader still lists and delivers the entries behind it)", pos - ds, ["read it until the error", "read half of it", "skipped it"][c.consume as usize % 3])),
+        }
+    }
+    Ok(())
+}
+
 /// foreign archives the stream can follow: contiguous, sizes in local headers, no encryption
 fn streamable_spec(maxc: u32) -> BoxedStrategy<ArchiveSpec> {
     genf::archive(8, maxc, false)
@@ -213,7 +330,7 @@ pub struct Unsup {
 }
 
 pub fn run(ctx: &mut Ctx) {
-    ctx.rule("agree: archives from the crate's writer (no encryption; incl. large_file, extra data, aligned) and contiguous archives from the independent builder with sizes in the local headers, read front-to-back from a non-seekable short-read stream with a per-entry consumption pattern from {0,1,k,all-1,all,half,random}; the sequence (name,size,method,timestamp,crc,content prefix) must equal the seekable reader's, then end-of-entries; the visitor must deliver visit_file per entry in order and then the central metadata once per entry in order. counts: crate-written archives with 65535/65536 (thorough: ..70000) entries through both streaming APIs. unsupported: an encrypted or data-descriptor entry at a generated position must yield an error, never data. Non-trivial = >=2 entries and at least one entry not fully consumed.");
+    ctx.rule("agree: archives from the crate's writer (no encryption; incl. large_file, extra data, aligned) and contiguous archives from the independent builder with sizes in the local headers, read front-to-back from a non-seekable short-read stream with a per-entry consumption pattern from {0,1,k,all-1,all,half,random}; the sequence (name,size,method,timestamp,crc,content prefix) must equal the seekable reader's, then end-of-entries; the visitor must deliver visit_file per entry in order and then the central metadata once per entry in order. counts: crate-written archives with 65535/65536 (thorough: ..70000) entries through both streaming APIs. unsupported: an encrypted or data-descriptor entry at a generated position must yield an error, never data. damaged: one byte of one entry's data (Stored/Deflate/Bzip2/Zstd, 1 B .. 300 KB, compressible or not) is altered; the stream must list the same entries as the seekable reader over the same bytes and deliver every entry the seekable reader delivers - in particular those BEHIND the damaged one - whether the consumer reads the damaged entry until its error, reads half of it or skips it. Non-trivial = >=2 entries and at least one entry not fully consumed.");
     let n = ctx.q(15000, 150000);
     let maxc = ctx.q(40000, 400000);
     ctx.explore::<Case>(
@@ -243,6 +360,31 @@ pub fn run(ctx: &mut Ctx) {
                 Ok(Err(m)) => Verdict::Fail(m),
                 Err(p) => Verdict::Fail(format!("PANIC: {p}")),
             }
+        },
+    );
+    // a damaged entry in the middle: the entries behind it must still arrive
+    let n = ctx.q(1500, 20000);
+    ctx.explore::<Damaged>(
+        "damaged",
+        n,
+        &|| {
+            (
+                0u8..4,
+                prop_oneof![2 => 1u32..3000, 2 => 9000u32..70000, 1 => 140000u32..300000],
+                prop_oneof![3 => Just(false), 1 => Just(true)],
+                prop_oneof![1 => Just(0u16), 1 => Just(65535u16), 3 => any::<u16>()],
+                1u8..=255,
+                0u8..3,
+                prop_oneof![Just(vec![]), Just(vec![1usize]), proptest::collection::vec(1usize..5000, 1..4)],
+                prop_oneof![Just(1usize), Just(4096usize), 1usize..70000],
+            )
+                .prop_map(|(method, len, compressible, at, xor, consume, schedule, buf)| Damaged { method, len, compressible, at, xor, consume, schedule: if len > 100000 && schedule == vec![1usize] { vec![4096] } else { schedule }, buf: if len > 100000 { buf.max(64) } else { buf } })
+                .boxed()
+        },
+        &|c: &Damaged, info: &mut Info| match catch(|| check_damaged(c, info)) {
+            Ok(Ok(())) => Verdict::Pass,
+            Ok(Err(m)) => Verdict::Fail(m),
+            Err(p) => Verdict::Fail(format!("PANIC: {p}")),
         },
     );
     // entry counts around the 16-bit limit: from 65536 entries on the writer emits ZIP64 end records
